@@ -276,7 +276,8 @@ def minimise(sess: Session, desc: dict, res: dict, v: dict, budget_s: float) -> 
 
 
 def write_replay(prop: str, desc: dict, devs, res: dict, v: dict, log: list[str]) -> str:
-    os.makedirs(os.path.join(VERIF, "replays"), exist_ok=True)
+    rdir = os.environ.get("VERIF_REPLAY_DIR") or os.path.join(VERIF, "replays")
+    os.makedirs(rdir, exist_ok=True)
     body = {
         "property": prop,
         "rule": v["rule"],
@@ -289,7 +290,7 @@ def write_replay(prop: str, desc: dict, devs, res: dict, v: dict, log: list[str]
         "minimised": log,
     }
     h = hashlib.sha1(json.dumps(body, sort_keys=True).encode()).hexdigest()[:12]
-    path = os.path.join(VERIF, "replays", f"{prop}-{h}.json")
+    path = os.path.join(rdir, f"{prop}-{h}.json")
     with open(path, "w") as f:
         json.dump(body, f, indent=1, sort_keys=True)
     return path
@@ -499,8 +500,9 @@ def write_evidence(mod, sess, tier, seed, results, status_counts, groups, known_
         "wall_s": round(wall, 2),
         "violations": len(new_groups),
     }
-    os.makedirs(os.path.join(VERIF, "evidence"), exist_ok=True)
-    with open(os.path.join(VERIF, "evidence", f"{prop}.json"), "w") as f:
+    edir = os.environ.get("VERIF_EVIDENCE_DIR") or os.path.join(VERIF, "evidence")
+    os.makedirs(edir, exist_ok=True)
+    with open(os.path.join(edir, f"{prop}.json"), "w") as f:
         json.dump(ev, f, indent=1, default=str)
     if zero_probes:
         print(f"WARNING probes stuck at zero: {zero_probes}")
